@@ -138,11 +138,29 @@ def run(ctx, rep):
     rep.check(okargs and ok, 'R-C19-3', 'repair: fetch target is the buffer of the block whose hash is checked', r.file, '', function='repair', construct='fetch arguments')
 
     # ---- R-C19-4
-    s = P.fn('scan_file')
+    root = P.fn('scan_file')
+    rep.analysed(root)
+    from .C05 import locate_in_helpers
+    # the copy detection may live in a static helper of scan_file: the source check is looked for where file_copy is called, the
+    # --force-nocopy guard there or around the call of the helper
+    s = locate_in_helpers(P, root, lambda g: any(True for _ in g.calls('file_copy')))
+    if s is None:
+        raise AnalysisBroken('scan_file: file_copy is called neither inline nor in a static helper')
     rep.analysed(s)
     fc = list(s.calls('file_copy'))
     ok = len(fc) == 1
     det = ''
+    def under_nocopy_off(g, site):
+        for b in range(len(g.blocks)):
+            t = g.term(b)
+            if t.op == 'br' and len(t.ops) == 3 and 'force_nocopy' in g.xexpr(t.ops[0]) and g.bdominates(b, site.block):
+                ci = g.inst_of(t.ops[0])
+                if ci is None:
+                    continue
+                no_edge = t.ops[1][1] if (ci.op == 'icmp' and ci.pred == 'ne') or ci.op != 'icmp' else t.ops[2][1]
+                if g.bdominates(no_edge, site.block):
+                    return True
+        return False
     if ok:
         fh = [c for c in s.calls('file_is_full_hashed_and_stable') if s.dominates(c, fc[0])]
         okh = False
@@ -151,16 +169,14 @@ def run(ctx, rep):
                 te = br.ops[2][1] if ci.op != 'icmp' or ci.pred == 'ne' else br.ops[1][1]
                 if s.bdominates(te, fc[0].block) and s.expr(c.ops[2]) == s.expr(fc[0].ops[0]):
                     okh = True
-        okn = False
-        for b in range(len(s.blocks)):
-            t = s.term(b)
-            if t.op == 'br' and len(t.ops) == 3 and 'force_nocopy' in s.expr(t.ops[0]) and s.bdominates(b, fc[0].block):
-                ci = s.inst_of(t.ops[0])
-                no_edge = t.ops[1][1] if ci.pred == 'ne' else t.ops[2][1]
-                okn = s.bdominates(no_edge, fc[0].block)
+        okn = under_nocopy_off(s, fc[0])
+        if not okn and s is not root:
+            hc = [c for c in root.calls() if c.callee_full == s.name]
+            okn = bool(hc) and all(under_nocopy_off(root, c) for c in hc)
         ok = okh and okn
         det = 'source checked by file_is_full_hashed_and_stable: %s; under !force_nocopy: %s' % (okh, okn)
     rep.check(ok, 'R-C19-4', 'scan_file: file_copy guard', fc[0].loc() if fc else s.file, det, function='scan_file', construct='copy guard')
+    s = root
     c = P.fn('file_copy')
     rep.analysed(c)
     sets = [x for x in c.calls('block_state_set')]
